@@ -52,10 +52,15 @@ Init == /\ kt \in KeyTypes /\ op \in Ops /\ ks \in KidStates /\ eab \in EABs
         /\ (~IsEC(kt) => zx = 0 /\ zy = 0 /\ zs = 0)
         /\ (op.key # "nil" => ks = "preset")
         /\ (eab => op.name = "Register")
+        \* operations addressed to the account URL itself (updateRegRFC, DeactivateReg) return
+        \* ErrNoAccount without sending anything when the lookup fails: no request to judge
+        /\ (op.name \in {"UpdateReg", "DeactivateReg"} => ks # "lookupFail")
         \* shapes are realised by search: at most one coordinate and one signature half is special per
         \* case; two leading zero octets are explored for P-521 only (top octet carries a single bit)
         /\ (zx = 0 \/ zy = 0) /\ (zr = 0 \/ zs = 0)
         /\ \A z \in {zx, zy, zr, zs} : z >= 2 => kt = "P-521"
+        \* the shape of a signature is independent of the operation: explored on one POST-as-GET
+        /\ ((zr # 0 \/ zs # 0) => (op.name = "GetOrder" /\ ks = "preset" /\ zx = 0 /\ zy = 0))
         /\ out = None /\ phase = "case"
 
 Encode ==
